@@ -3,6 +3,9 @@ import TmcgProofs.Base
 import Mathlib.Data.ZMod.Basic
 import Mathlib.Algebra.Field.ZMod
 import Mathlib.LinearAlgebra.Lagrange
+import Mathlib.NumberTheory.LegendreSymbol.QuadraticReciprocity
+import Mathlib.GroupTheory.OrderOfElement
+import Mathlib.FieldTheory.Finite.Basic
 /-
   C09, area "arith2": proofs about the models of Tmcg/Model/Arith2.lean.
 
@@ -13,6 +16,7 @@ import Mathlib.LinearAlgebra.Lagrange
     * `interp_bad_arguments`       the argument check
     * `primeRelOk_safe`, `primeRelOk_safe2g`, `primeRelOk_blum`, `primeRelOk_schnorr`, `primeRelOk_prefix`,
       `primeRelOk_ordinary`        what the decision function used by the correspondence run means
+    * `sprime2g_two_generates`     for an accepted `sprime2g` tuple 2 generates the subgroup of order q
     * `mpiRoundtrip_lossless`      the conversion model is the identity wherever it answers, and it
                                    answers for every integer of at most 16368 bits
     * `bigint_backend_independent` whenever neither back end refuses a call, the wrapper model gives the
@@ -674,6 +678,47 @@ theorem prefixK_spec (kin : Int) (psize qsize : Nat) :
   by_cases h : kin * 62 ^ j % 2 = 1
   · right; simp [h]
   · left; simp [h]
+
+/-- why `tmcg_mpz_sprime2g` insists on `p ≡ 7 (mod 8)`: for a safe prime `p = 2q + 1` of that shape,
+    2 is a quadratic residue and generates the subgroup of prime order `q` -/
+theorem two_generates (p q : Nat) (hp : p.Prime) (hq : q.Prime) (hpq : p = 2 * q + 1)
+    (h8 : p % 8 = 7) : orderOf (2 : ZMod p) = q := by
+  have : Fact p.Prime := ⟨hp⟩
+  have hp2 : p ≠ 2 := by omega
+  obtain ⟨y, hy⟩ := (ZMod.exists_sq_eq_two_iff hp2).mpr (Or.inr h8)
+  have hy0 : y ≠ 0 := by
+    intro h
+    rw [h, mul_zero] at hy
+    have h2 : ((2 : Nat) : ZMod p) = 0 := by exact_mod_cast hy
+    rw [ZMod.natCast_eq_zero_iff] at h2
+    have := Nat.le_of_dvd (by norm_num) h2
+    omega
+  have hpow : (2 : ZMod p) ^ q = 1 := by
+    rw [hy, ← pow_two, ← pow_mul]
+    have h := ZMod.pow_card_sub_one_eq_one hy0
+    have e : p - 1 = 2 * q := by omega
+    rwa [e] at h
+  have hdvd := orderOf_dvd_of_pow_eq_one hpow
+  rcases (Nat.dvd_prime hq).mp hdvd with h1 | h1
+  · exfalso
+    rw [orderOf_eq_one_iff] at h1
+    have h3 : ((1 : Nat) : ZMod p) = 0 := by
+      have : (2 : ZMod p) - 1 = 0 := by rw [h1]; ring
+      have h4 : (2 : ZMod p) - 1 = 1 := by ring
+      rw [h4] at this
+      exact_mod_cast this
+    rw [ZMod.natCast_eq_zero_iff] at h3
+    have := Nat.le_of_dvd (by norm_num) h3
+    omega
+  · exact h1
+
+/-- a tuple accepted for `tmcg_mpz_sprime2g` with truthful primality answers: 2 has order `q` mod `p` -/
+theorem sprime2g_two_generates (p q k : Int) (psize qsize : Nat) (kin : Int)
+    (h : primeRelOk .sprime2g p q k psize qsize kin true true = true)
+    (hpp : Nat.Prime p.natAbs) (hqp : Nat.Prime q.natAbs) :
+    orderOf (2 : ZMod p.natAbs) = q.natAbs := by
+  obtain ⟨_, _, hq0, hpq, _, _, h8⟩ := (primeRelOk_safe2g p q k psize qsize kin true true).mp h
+  exact two_generates p.natAbs q.natAbs hpp hqp (by omega) (by omega)
 
 /-! ### C. conversion between the back ends -/
 
